@@ -607,7 +607,7 @@ def run(env) -> Result:
         res.count(("parser-char-mutant", text), False)
         probe_parser(text)
     probe = rand_bytes(rnd, 64)
-    for _ in range(70 if tier == "quick" else 2500):
+    for _ in range(70 if tier == "quick" else 1000):   # (each cstruct object that defines a structure stays alive for the process: memory bounds the thorough tier)
         items = gen_items(rnd, rnd.randint(3, 9))
         names = set().union(*[it.defines for it in items])
         base_text = render(items)
